@@ -20,7 +20,7 @@ class Sink(Stream):
 
     def destroy(self):
         super().destroy()
-        _global_sinks.remove(self)
+        _global_sinks.discard(self)
 
 
 @Stream.register_api()
